@@ -46,6 +46,14 @@ RULE = ("complete products: Policy.get precedence (presence of requester / regis
         "declaration shape, outcome) classes other than 'nothing configured, everything released'")
 TRUSTED = ["source-to-Gallina translator harness/py2coq.py + coq/theories/Base/Py.v (Policy.get is re-translated from the source text "
            "on every run; c10_source_policy_get proves it equal to the model's section precedence)",
+           "source-to-Gallina translator v2 harness/py2coq2.py + coq/theories/Base/Py2.v: re-translated from the source text on "
+           "every run into coq/gen/C10Src2.v and proved equal to the model in coq/theories/C10/Source2.v (c10_source2_*): "
+           "saml2.assertion._filter_values, _match, filter_on_attributes._match_attr_name (nested), "
+           "filter_attribute_value_assertions, Policy.filter, Policy.restrict, Policy.get_fail_on_missing_requested; external "
+           "calls are hypotheses of the theorems (get_local_name, restr.match, ac_factory, Policy.get_entity_categories, "
+           "filter_on_attributes as called from Policy.filter, MetadataStore.attribute_requirement / subject_id_requirement); "
+           "not modelled by the translator: aliasing, set order (list(set(..)) = first occurrences), __len__/__bool__/__eq__ of "
+           "objects (a MetadataStore is truthy when it has fields), non-ASCII lower()",
            "Python re (regex matching enters as data: bool(re.compile(r).match(v)))",
            "attribute maps (get_local_name result enters as data; C17 covers the maps)",
            "abstraction functions and SP-metadata / policy-config renderers in harness/c10.py",
@@ -181,9 +189,71 @@ def regenerate_tables(ctx):
          {"name": "src_policy_get", "params": ["self", "attribute", "sp_entity_id", "default"],
           "extra_params": [("registration_info", "pyval -> pyval")],
           "calls": {"self.metadata_store.registration_info": lambda a: "(registration_info %s)" % a[0]}})])
-    return {"obligations": len(tabs) + src["obligations"], "discharged": len(tabs) + src["discharged"],
-            "modules": [t[0] for t in tabs], "entries": n, "file": "coq/gen/C10Tables.v", "source": src,
-            "untranslatable": src["untranslatable"]}
+    # translator v2: the release filters as they read NOW -> coq/gen/C10Src2.v (C10/Source2.v proves them equal to the model)
+    from harness import py2coq2
+    src2 = py2coq2.regenerate(os.path.join(common.GEN, "C10Src2.v"), source2_items())
+    return {"obligations": len(tabs) + src["obligations"] + src2["obligations"],
+            "discharged": len(tabs) + src["discharged"] + src2["discharged"],
+            "modules": [t[0] for t in tabs], "entries": n, "file": "coq/gen/C10Tables.v", "source": src, "source2": src2,
+            "untranslatable": list(src["untranslatable"]) + list(src2["untranslatable"]),
+            "changed": bool(src.get("changed")) or bool(src2.get("changed"))}
+
+
+def source2_items():
+    """What translator v2 (harness/py2coq2.py) re-translates from the source text on every run.  External calls
+    (attribute maps, regex engine, metadata store, the sibling methods of Policy) are extra parameters of the
+    Gallina definitions; C10/Source2.v quantifies over them (Section variables + hypotheses)."""
+    A = os.path.join(env.SRC, "saml2", "assertion.py")
+    quiet = ["logger.debug", "logger.info", "logger.warning", "logger.error", "_warn"]
+    return [
+        (A, "_filter_values", {"name": "src2_filter_values", "params": ["vals", "vlist", "must"]}),
+        (A, "_match", {"name": "src2_match", "params": ["attr", "ava"]}),
+        # nested in filter_on_attributes; `acs` is a free variable that is only handed on to get_local_name
+        (A, "filter_on_attributes._match_attr_name", {
+            "name": "src2_match_attr_name", "params": ["attr", "ava"],
+            "extra_params": [("get_local_name", "pyval -> pyval -> pyval"), ("match_", "pyval -> pyval -> pyval")],
+            "globals": {"acs": "PNone"},
+            "calls": {"get_local_name": lambda a: "(get_local_name %s %s)" % (a[1], a[2]),
+                      "_match": lambda a: "(match_ %s %s)" % (a[0], a[1])}}),
+        (A, "filter_attribute_value_assertions", {
+            "name": "src2_fava", "params": ["ava", "attribute_restrictions"],
+            "extra_params": [("re_match", "pyval -> pyval -> pyval")],
+            "calls": {"restr.match": lambda a: "(re_match v_restr %s)" % a[0]}}),
+        (A, "Policy.filter", {
+            "name": "src2_policy_filter",
+            "params": ["self", "ava", "sp_entity_id", "mdstore", "required", "optional", "fail_on_missing"],
+            "extra_params": [("ac_factory", "pyval"),
+                             ("get_entity_categories", "pyval -> pyval -> pyval -> pyval -> pyval"),
+                             ("fava", "pyval -> pyval -> pyval"),
+                             ("foa", "pyval -> pyval -> pyval -> pyval -> pyval -> pyval"),
+                             ("get_fail", "pyval -> pyval -> pyval"), ("get_ar", "pyval -> pyval -> pyval")],
+            "ignore_calls": quiet,
+            "calls": {"ac_factory": lambda a: "ac_factory",
+                      "self.get_entity_categories":
+                          lambda a, kw: "(get_entity_categories v_self %s %s %s)" % (a[0], kw["mds"], kw["required"]),
+                      "filter_attribute_value_assertions": lambda a: "(fava %s %s)" % (a[0], a[1]),
+                      "filter_on_attributes": lambda a: "(foa %s %s %s %s %s)" % tuple(a),
+                      "self.get_fail_on_missing_requested": lambda a: "(get_fail v_self %s)" % a[0],
+                      "self.get_attribute_restrictions": lambda a: "(get_ar v_self %s)" % a[0]}}),
+        (A, "Policy.restrict", {
+            "name": "src2_policy_restrict", "params": ["self", "ava", "sp_entity_id", "metadata", "fail_on_missing"],
+            "extra_params": [("attribute_requirement", "pyval -> pyval -> pyval"),
+                             ("subject_id_requirement", "pyval -> pyval -> pyval"),
+                             ("policy_filter", "pyval -> pyval -> pyval -> pyval -> pyval -> pyval -> pyval")],
+            "ignore_calls": quiet,
+            "calls": {"metadata_store.attribute_requirement":
+                          lambda a: "(attribute_requirement v_metadata_store %s)" % a[0],
+                      "metadata_store.subject_id_requirement":
+                          lambda a: "(subject_id_requirement v_metadata_store %s)" % a[0],
+                      "self.filter": lambda a, kw: "(policy_filter v_self %s %s %s %s %s)" % (
+                          a[0], a[1], kw["required"], kw["optional"], kw["fail_on_missing"])}}),
+        (A, "Policy.get_fail_on_missing_requested", {
+            "name": "src2_get_fail", "params": ["self", "sp_entity_id"],
+            "extra_params": [("policy_get", "pyval -> pyval -> pyval -> pyval -> pyval")],
+            # Policy.get(attribute, sp_entity_id, default): same argument order as src_policy_get of C10Src.v
+            "calls": {"self.get": lambda a, kw: "(policy_get v_self %s %s %s)" % (
+                a[0], a[1], kw["default"] if "default" in kw else a[2] if len(a) > 2 else "PNone")}}),
+    ]
 
 
 def _write_if_changed(path, txt):
